@@ -230,8 +230,12 @@ class PathState:
 class Walker:
     """Enumerates paths through a statement list."""
 
-    def __init__(self, facts, loop_var=None, class_of=None, max_paths=40000, name_results=False, inline='default', opaque=(), exits_end_paths=False):
+    def __init__(self, facts, loop_var=None, class_of=None, max_paths=40000, name_results=False, inline='default', opaque=(), exits_end_paths=False,
+                 guard_effects=False):
         self.facts = facts
+        # `if t: <effect-only calls>` (nothing bound, nothing inlinable, no control flow in either branch) does not fork the path:
+        # its calls become ('guarded', test, polarity, event, node) events of the one path
+        self.guard_effects = guard_effects
         self.exits_end_paths = exits_end_paths   # `sys.exit(x)` / `parser.error(..)` as statements are `raise SystemExit(..)`
         self.name_results = name_results
         self.inline_mode = inline            # 'default': effectful + small pure module-level helpers ; 'all': every module-level
@@ -1440,6 +1444,26 @@ class Walker:
             return self._assign_stmt(node, st, done, node)
         return self._stmt_rest(node, st, done)
 
+    def effect_only(self, body, st):
+        """Is the statement list made of calls made for their effect only (and `pass`): expression statements whose call is not a
+        helper that would be inlined, does not end the process and has no call / lambda / comprehension among its arguments that
+        could hide one?"""
+        for b in body:
+            if isinstance(b, ast.Pass):
+                continue
+            if not (isinstance(b, ast.Expr) and isinstance(b.value, ast.Call)):
+                return False
+            for n in ast.walk(b.value):
+                if isinstance(n, ast.Call) and self.inline_target(n, st) is not None:
+                    return False
+                if isinstance(n, (ast.Lambda, ast.NamedExpr, ast.Await, ast.Yield, ast.YieldFrom)):
+                    return False
+                if isinstance(n, ast.Call) and isinstance(n.func, ast.Name) and n.func.id in st.env:
+                    return False
+            if self.process_exit(self.sym(b.value, st)) is not None:
+                return False
+        return True
+
     def process_exit(self, v):
         """The SystemExit a call statement raises when it never returns: sys.exit(x) / exit(x) / quit(x) are `raise SystemExit(x)`;
         <argparse.ArgumentParser>.error(msg) prints the message and exits with status 2, .exit(status=0, message=None) with
@@ -1526,6 +1550,15 @@ class Walker:
         if isinstance(node, ast.If):
             out = []
             for s, e in self.expand_calls(node.test, st, done):
+                if self.guard_effects and self.effect_only(node.body, s) and self.effect_only(node.orelse, s):
+                    test = self.sym(e, s)
+                    if self.decide(test, s) is None and test[0] != 'bool':
+                        for pol, body in ((True, node.body), (False, node.orelse)):
+                            for b in body:
+                                if isinstance(b, ast.Expr) and isinstance(b.value, ast.Call):
+                                    s.events.append(('guarded', test, pol, self.effect(self.sym(b.value, s), b), node))
+                        out.append(s)
+                        continue
                 out.extend(self.fork(e, s, done, node.body, node.orelse))
             return out
         if isinstance(node, ast.Continue):
